@@ -205,6 +205,21 @@ func CheckGroupByColValsAgainstLimit(timechart *structs.TimechartExpr, groupByCo
 	valIsInLimit := make(map[string]bool)
 	isRankBySum := IsRankBySum(timechart)
 
+	// The same holds for any single aggregation whose results are not numbers (list(), or
+	// earliest()/latest() of a text field): there is no sum to rank by, so rank by frequency
+	// instead of putting every series beyond the limit.
+	if isRankBySum && !onlyUseByValuesFunc {
+		for _, cVal := range groupValScoreMap {
+			if cVal == nil {
+				continue
+			}
+			if _, err := cVal.GetFloatValue(); err != nil {
+				onlyUseByValuesFunc = true
+				break
+			}
+		}
+	}
+
 	// When there is only one aggregator and aggregator is values(), we can not score that based on the sum of the values in the aggregation
 	if isRankBySum && !onlyUseByValuesFunc {
 		scorePairs := make([]scorePair, 0)
